@@ -359,12 +359,40 @@ func (c *Check) checkRename(f *ssa.Function, call ssa.CallInstruction) {
 		if n != "(*os.File).Write" && n != "(*os.File).Close" {
 			continue
 		}
-		used := ci.Referrers() != nil && len(*ci.Referrers()) > 0
+		// the error must prevent the rename: the rename is unreachable when it is non-nil
+		var errv ssa.Value = ci
+		if tup, isTuple := ci.Type().(*types.Tuple); isTuple {
+			errv = nil
+			for _, r2 := range *ci.Referrers() {
+				if ex, ok := r2.(*ssa.Extract); ok && ex.Index == tup.Len()-1 {
+					errv = ex
+				}
+			}
+		}
 		k2 := key + ":err:" + ci.Call.StaticCallee().Name()
-		if used {
-			c.ok("C19-R2", k2, p.relFile(ci.Pos()), "error of "+n+" before the rename is examined", "result is used")
-		} else {
+		if errv == nil {
 			c.bad("C19-R2", k2, p.relFile(ci.Pos()), "error of "+n+" is discarded: a short write would be renamed over the good file")
+			continue
+		}
+		carriers := map[ssa.Value]bool{errv: true}
+		for _, fl := range flowsOf(errv) {
+			carriers[fl] = true
+		}
+		reach := reachUnder(f, func(cond ssa.Value) int {
+			if cmp, ok := cond.(*ssa.BinOp); ok && (carriers[cmp.X] || carriers[cmp.Y]) {
+				switch cmp.Op {
+				case token.NEQ:
+					return 1
+				case token.EQL:
+					return -1
+				}
+			}
+			return 0
+		})
+		if reach[call.(ssa.Instruction).Block()] {
+			c.bad("C19-R2", k2, p.relFile(ci.Pos()), "a failure of "+n+" does not stop the rename (its error is not tested before os.Rename): a partly written temporary file replaces the good settings file")
+		} else {
+			c.ok("C19-R2", k2, p.relFile(ci.Pos()), "error of "+n+" before the rename is examined", "the rename is unreachable when that error is non-nil")
 		}
 	}
 }
